@@ -39,3 +39,19 @@ Inductive pstmt : Type :=
 | PReturnFalse                            (* return false, ...                                 *)
 | PReturnTrue                             (* return true, ...                                  *)
 | PReturnLen.                             (* return len(p.players)                             *)
+
+(* net/packet/packet.go (and any other user of a package-level sync.Pool in net/packet): ownership events of
+   pooled objects; tools/gotrans/pool.go emits, for every such function, the event sequence of EVERY path.
+   Objects are bound to numbered local slots. *)
+Inductive pev :=
+| EGet (slot : nat)          (* x := pool.Get() asserted to its type: bind a local slot                         *)
+| EUse (slot : nat)          (* a statement reads or writes the object bound to the slot (Reset, Write, Bytes, copy out) *)
+| EUse2 (a b : nat)          (* the object in slot a works on the object in slot b (zw.Reset(buff); zw.Write; zw.Close) *)
+| EPut (slot : nat)          (* pool.Put(x), also when deferred                                    *)
+| EReturnAlias (slot : nat). (* the function result / something reachable by the caller aliases the object's memory *)
+
+(* nbt/typeinfo.go: the three program points of cachedTypeFields (shape checked by tools/gotrans/pool.go) *)
+Inductive cstmt :=
+| CSLoadReturn           (* if ti, ok := fieldCache.Load(t); ok { return ti } *)
+| CSCompute              (* tInfo := typeFields(t)                            *)
+| CSLoadOrStoreReturn.   (* ti, _ := fieldCache.LoadOrStore(t, tInfo); return ti *)
